@@ -26,7 +26,7 @@ def run(c):
     cases = []
     for rep in range(4 if c.thorough else 1):
         cases += tclib.cases("ord", rng, per_type=12 if c.thorough else 10)
-        for ty, t in (("wrap_int_#field", ("wrap", ("int",))), ("int#new", ("int",)), ("int#cmp", ("int",))):
+        for ty, t in (("wrap_int_#field", ("wrap", ("int",))), ("int#new", ("int",)), ("int#cmp", ("int",)), ("int#cmpmag", ("int",))):
             cases.append(dict(ty=ty, what="ord", vals=tclib.universe(t, rng, 8, [0])))
     # every key sequence of length <= 5 (thorough: 6) over 3 keys; the payload is the original position
     for n in range(0, 7 if c.thorough else 6):
@@ -35,6 +35,12 @@ def run(c):
     for _ in range(200 if c.thorough else 40):
         n = rng.randint(6, 200)
         cases.append({"what": "sort", "in": [[rng.randint(-5, 5), i] for i in range(n)]})
+    # the same over a nillable element type (*int under ord.Ptr, nil first; key -1 = nil)
+    for n in range(0, 5):
+        for keys in itertools.product((-1, 0, 1), repeat=n):
+            cases.append({"what": "sortptr", "in": [[k, 0] for k in keys]})
+    for _ in range(60 if c.thorough else 15):
+        cases.append({"what": "sortptr", "in": [[rng.choice([-1, -1, 0, 1, 2, 3]), 0] for _ in range(rng.randint(5, 40))]})
     tcrun.run_cases(c, "C10", cases, "c10")
     c.cov["rule"] = ("cases = Ord instance expressions with universes (all comparison matrices) and Sort/Min/Max inputs (every key sequence "
                      "of length <= 5 over 3 keys + random long ones); non-trivial = product/sequence types or inputs with >= 2 elements")
